@@ -166,3 +166,19 @@ Proof.
   simpl in H1. erewrite nth_error_upd_eq in H1 by eauto. inversion H1; subst co1.
   eexists. split. simpl. eapply nth_error_upd_eq; eauto. split; reflexivity.
 Qed.
+
+(* the hand-over of the executor at an inline resumption (PromiseType::Impl), at the rule found in the source: the
+   coroutine gets the executor of the core that completed, and that core keeps it *)
+Lemma handover_keeps_awaited_executor c o s co ob :
+  nth_error (cos s) c = Some co -> nth_error (objs s) o = Some ob ->
+  exists co' ob', nth_error (cos (swap_exec c13_impl_swaps_executor c o s)) c = Some co' /\
+                  nth_error (objs (swap_exec c13_impl_swaps_executor c o s)) o = Some ob' /\
+                  cexec co' = oexec ob /\ oexec ob' = oexec ob /\
+                  (forall o1, o1 <> o -> nth_error (objs (swap_exec c13_impl_swaps_executor c o s)) o1 = nth_error (objs s) o1).
+Proof.
+  intros H1 H2. unfold swap_exec. rewrite H1, H2. simpl.
+  exists (set_cexec (oexec ob) co), (set_oexec (oexec ob) ob). split; [|split; [|split; [|split]]]; auto.
+  - eapply nth_error_upd_eq; eauto.
+  - eapply nth_error_upd_eq; eauto.
+  - intros o1 N. apply nth_error_upd_neq. auto.
+Qed.
